@@ -208,7 +208,8 @@ CONFIGS = {
     'RandomBrightnessContrast': [{}, {'max_brightness': 200}, {'brightness_limit': 0.5, 'contrast_limit': 0.4}, {'max_brightness': 1.0}],
     'GaussNoise': [{}, {'var_limit': 20.0, 'mean': 3}, {'var_limit': (5.0, 30.0), 'per_channel': False}],
     'Posterize': [{'num_bits': 4}, {'num_bits': (2, 6)}, {'num_bits': 1}],
-    'Blur': [{}, {'blur_limit': (3, 5), 'by_slice': True}, {'mode': 'reflect'}, {'mode': 'nearest', 'cval': 3}, {'mode': 'wrap'}],
+    'Blur': [{}, {'blur_limit': (3, 5), 'by_slice': True}, {'mode': 'reflect'}, {'mode': 'nearest', 'cval': 3}, {'mode': 'wrap'},
+             {'blur_limit': (4, 4)}, {'blur_limit': (2, 6), 'by_slice': True}, {'blur_limit': (6, 6), 'mode': 'reflect'}],
     'MedianBlur': [{}, {'blur_limit': 3, 'by_slice': True}, {'mode': 'mirror'}],
     'GaussianBlur': [{}, {'sigma_limit': (0.5, 2)}, {'blur_limit': (3, 5), 'mode': 'reflect'}],
     'Sharpen': [{}, {'alpha': (0.1, 0.9), 'lightness': (0.2, 1.5)}, {'mode': 'reflect'}],
@@ -259,9 +260,13 @@ def check(case):
         pimg = img.reshape((-1,) + shape[3:])[perm].reshape(shape)
         pout = A.ReplayCompose.replay(rec, image=pimg)['image']
         pexp = out.reshape((-1,) + out.shape[3:])[perm].reshape(out.shape)
-        if not (np.array_equal(pout, pexp) or (str(out.dtype).startswith('float') and close_f(pout, pexp))):
+        # formulas with a global statistic (mean of the image) see another summation order after the permutation:
+        # one LSB of round-off is not a different formula
+        loose = name in ('RandomBrightnessContrast', 'Normalize') and not str(out.dtype).startswith('float') and close_int(pout, pexp, 1)
+        if not (np.array_equal(pout, pexp) or loose or (str(out.dtype).startswith('float') and close_f(pout, pexp))):
             return ('permutation', 'T(permuted image) differs from permuted T(image) at %d voxels' % int(np.sum(pout != pexp)), 'point-wise transforms commute with voxel permutations')
-    if name in SYMMETRIC:
+    # an even-sized window has no centre voxel: the filter is a shifted one and does not commute with flips
+    if name in SYMMETRIC and not (isinstance(prm.get('ksize'), (int, np.integer)) and int(prm['ksize']) % 2 == 0 and int(prm['ksize']) > 0):
         ax = case['flip_axis']
         fout = A.ReplayCompose.replay(rec, image=np.ascontiguousarray(np.flip(img, ax)))['image']
         fexp = np.flip(out, ax)
@@ -269,6 +274,35 @@ def check(case):
         if not okf:
             return ('flip', 'T(flipped image) differs from flipped T(image) at %d voxels (axis %d)' % (int(np.sum(fout != fexp)), ax), 'symmetric-kernel filters commute with flips')
     return None
+
+
+def check_convolve(case):
+    """F.convolve with an odd-sized NON-symmetric kernel against the convolution sum written out:
+    out[i] = sum_a w[a] * x[i + c - a]  (c = centre index, zero outside the volume), then saturated to the dtype"""
+    import dicaugment.augmentations.functional as F
+    rs = np.random.RandomState(case['seed'] % 99989)
+    dt = case['dtype']
+    shape = tuple(case['shape'])
+    img = make_image(dt, shape, rs, extremes=False)
+    ksh = tuple(case['kshape'])
+    ker = rs.randint(-2, 4, ksh).astype(np.float64)
+    ker[tuple(0 for _ in ksh)] += 1.5          # make sure it is not point-symmetric
+    try:
+        out = F.convolve(img.copy(), ker)
+    except Exception as e:  # noqa
+        return ('raises', '%s: %s' % (type(e).__name__, str(e)[:120]), 'runs')
+    x = img.astype(np.float64)
+    c = [k // 2 for k in ksh]
+    xp = np.pad(x, [(k, k) for k in ksh], mode='constant')
+    acc = np.zeros_like(x)
+    for a in range(ksh[0]):
+        for b in range(ksh[1]):
+            for d in range(ksh[2]):
+                oy, ox, oz = c[0] - a + ksh[0], c[1] - b + ksh[1], c[2] - d + ksh[2]
+                acc += ker[a, b, d] * xp[oy:oy + shape[0], ox:ox + shape[1], oz:oz + shape[2]]
+    exp = sat(acc, dt)
+    bad = cmp(out, exp, dt, 1)
+    return ('formula', bad, 'the convolution sum with the kernel %s' % ker.tolist()) if bad else None
 
 
 def run(seed=0, tier='quick', hints=None, broken=False):
@@ -286,19 +320,33 @@ def run(seed=0, tier='quick', hints=None, broken=False):
                     case = {'name': name, 'kw': kw, 'dtype': dt, 'shape': rng.sample([5, 6, 7, 8, 9], 3),
                             'channels': rng.choice([None, None, 2]) if name not in ('GaussNoise',) else rng.choice([None, 2]),
                             'seed': rng.randint(0, 10 ** 6), 'flip_axis': rng.randrange(3)}
-                    if name in SYMMETRIC and rng.random() < 0.5:
-                        # flat regions must be thicker than the filter radius (up to 3) to contain exact ties
-                        case['structure'] = 'blocks'
-                        case['shape'] = rng.sample([11, 12, 13, 14, 16], 3)
-                    bad = check(case)
-                    evals += 1
-                    seen.add((name, repr(sorted(kw)), dt))
-                    if bad:
-                        viol.append({'site': 'C18:%s:%s' % (name, bad[0]), 'case': case, 'observed': str(bad[1])[:300], 'expected': str(bad[2])[:300]})
+                    todo = [case]
+                    if name in SYMMETRIC:
+                        # the neighbourhood filters also on a piecewise-constant volume; flat regions must be thicker
+                        # than the filter radius (up to 3) to contain exact ties
+                        todo.append(dict(case, structure='blocks', shape=rng.sample([11, 12, 13, 14, 16], 3), seed=rng.randint(0, 10 ** 6)))
+                    for case in todo:
+                        bad = check(case)
+                        evals += 1
+                        seen.add((name, repr(sorted(kw)), dt, case.get('structure')))
+                        if bad:
+                            viol.append({'site': 'C18:%s:%s' % (name, bad[0]), 'case': case, 'observed': str(bad[1])[:300], 'expected': str(bad[2])[:300]})
+    for i in range(6 if tier == 'quick' else 120):
+        case = {'name': 'F.convolve', 'dtype': rng.choice(['uint8', 'uint16', 'int16', 'float32']), 'shape': rng.sample([4, 5, 6, 7], 3),
+                'kshape': [rng.choice([1, 3]), rng.choice([1, 3]), rng.choice([1, 3, 5])], 'seed': rng.randint(0, 10 ** 6)}
+        if case['kshape'] == [1, 1, 1]:
+            case['kshape'] = [3, 1, 1]
+        bad = check_convolve(case)
+        evals += 1
+        if bad:
+            viol.append({'site': 'C18:F.convolve:%s' % bad[0], 'case': case, 'observed': str(bad[1])[:300], 'expected': str(bad[2])[:300]})
     return {'violations': viol, 'info': {'evaluations': evals, 'distinct': len(seen),
                                          'what': 'image-only transforms vs independent formula; dtype / range; permutation and flip commutation'}}
 
 
 def replay(v):
+    if v['case'].get('name') == 'F.convolve':
+        bad = check_convolve(v['case'])
+        return [{'site': 'C18:F.convolve:%s' % bad[0], 'case': v['case'], 'observed': str(bad[1]), 'expected': str(bad[2])}] if bad else []
     bad = check(v['case'])
     return [{'site': 'C18:%s:%s' % (v['case']['name'], bad[0]), 'case': v['case'], 'observed': str(bad[1]), 'expected': str(bad[2])}] if bad else []
